@@ -396,6 +396,41 @@ def stop_vs_garbage(decisions):
         w.close()
 
 
+def dpa_vs_writer(decisions):
+    """During stop() the peer sends a watchdog request of its own and its DPA in one segment: the DWA is queued, the
+    DPA puts the connection into CLOSING, and the write thread moves the DWA from the queue into the buffer while the
+    connection thread decides whether anything is left to write.  One schedule: the DWA is on the wire before the close."""
+    from dv import sched
+    w = W.NodeWorld({"peers": [{"name": "peer1.example", "ip": ["10.1.1.1"]}],
+                     "apps": [{"app_id": 4, "auth": True, "peers": [0], "handler": "answer"}],
+                     "node_timers": {"idle": 5000, "dwa": 5000, "cer": 50, "cea": 50, "wakeup": 1}})
+    try:
+        w.start()
+        c = w.handshake_in("peer1.example", auth=[4], ip="10.1.1.1", hbh=0x100)
+        box = w.stop(force=False, wait_timeout=6)
+        dprs = [f for f in c.refresh() if f.code == W.CMD_DP and f.is_request]
+        if not dprs:
+            return [], [("setup", "no DPR after stop()")]
+        ex = sched.Explorer(decisions)
+        sched.attach(w.k, ex)
+        w.feed(c, W.build_msg({"k": "DWR", "host": "peer1.example", "hbh": 0xdf00, "e2e": 0xdf00}) +
+               W.build_msg({"k": "DPA", "host": "peer1.example", "hbh": dprs[0].h["hbh"], "e2e": dprs[0].h["e2e"]}), run=False)
+        ex.armed = True
+        w.k.run()
+        ex.armed = False
+        w.advance(2)
+        problems = []
+        if not [f for f in c.refresh() if f.code == W.CMD_DW and not f.is_request and f.h["hbh"] == 0xdf00]:
+            problems.append(("pending-output-not-flushed", f"the DWA for the peer's DWR was never written; connection closed: {c.node_closed}"))
+        if not c.node_closed:
+            problems.append(("not-closed-after-dpa", "the connection is still open 2 s after its DPA"))
+        for sig, d in W.monitor_threads(w):
+            problems.append((f"thread-died/{sig}", d))
+        return ex.trace, problems
+    finally:
+        w.close()
+
+
 def two_stops(decisions):
     """Two threads call stop() at the same moment (a signal handler and the main program, say).  One schedule:
     exactly one of the calls carries the shutdown out, the other is refused with the documented RuntimeError, and
@@ -524,6 +559,9 @@ def schedule_part(rec, shard, nshards, thorough):
     for name, fn, points, bound in (("stop-vs-garbage", stop_vs_garbage,
                                      {N.stop: r"_stopping|_stop_lock|send_dpr|for conn|PEER_READY_STATES", N.send_dpr: None, P.close: None,
                                       P.work_read_queue: r"self\.close\(\)|only garbage"}, 3 if thorough else 2),
+                                    ("dpa-vs-writer", dpa_vs_writer,
+                                     {P.work_write_queue: None, P.has_pending_output: None, P.add_out_msg: None,
+                                      N._handle_connections: r"has_pending_output|interrupt_read|PEER_CLOSING|remove_out_bytes|\.send\("}, 3 if thorough else 2),
                                     ("two-stops", two_stops, {N.stop: None}, 3 if thorough else 2),
                                     ("stop-vs-watchdog", stop_vs_watchdog,
                                      {N.stop: r"_stopping|_stop_lock|send_dpr|for conn", N._check_timers: None, N.send_dwr: None}, 3 if thorough else 2)):
@@ -614,7 +652,7 @@ def run(tier, scale=1.0):
     rec = Recorder(PID)
     for d in hyp.pool_run(shard_main, (tier, scale)):
         rec.merge(d)
-    required = {"exploration:stop-vs-garbage": 1, "exploration:two-stops": 1, "exploration:stop-vs-watchdog": 1} | {f"state:{s}": 1 for s in set(STATES)} | {f"reaction:{r}": 1 for r in REACTIONS} | \
+    required = {"exploration:dpa-vs-writer": 1, "exploration:stop-vs-garbage": 1, "exploration:two-stops": 1, "exploration:stop-vs-watchdog": 1} | {f"state:{s}": 1 for s in set(STATES)} | {f"reaction:{r}": 1 for r in REACTIONS} | \
                {"schedule-exploration": 1, "handshake-completes-while-stopping": 1, "listeners:2": 1, "listeners:4": 1, "simultaneous-dpas": 1, "second-connection-of-a-peer": 1, "force:True": 1, "newcomers:2": 1, "nconns:3": 1, "reconnect-inside:True": 1, "app:threading": 1}
     return finish(rec, tier=tier, level="exploration", rule=RULE, assumptions=ASSUME, t0=t0,
                   required_classes=required)
@@ -624,13 +662,15 @@ def replay(doc):
     from dv import sched, simkernel as sk
     case = doc["case"]
     explorations = {"two-stops": (two_stops, "C18/two-stops/"), "stop-vs-watchdog": (stop_vs_watchdog, "C18/stop-vs-watchdog/"),
-                    "stop-vs-garbage": (stop_vs_garbage, "C18/stop-vs-garbage/")}
+                    "stop-vs-garbage": (stop_vs_garbage, "C18/stop-vs-garbage/"), "dpa-vs-writer": (dpa_vs_writer, "C18/dpa-vs-writer/")}
     for name, (fn, prefix) in explorations.items():
         if case.get(name):
             N = sk.load_node()["node"].Node
             sched.clear()
             P = sk.load_node()["peer"].PeerConnection
             sched.install({N.stop: None} if name == "two-stops" else
+                          {P.work_write_queue: None, P.has_pending_output: None, P.add_out_msg: None,
+                           N._handle_connections: r"has_pending_output|interrupt_read|PEER_CLOSING|remove_out_bytes|\.send\("} if name == "dpa-vs-writer" else
                           {N.stop: r"_stopping|_stop_lock|send_dpr|for conn|PEER_READY_STATES", N.send_dpr: None, P.close: None,
                            P.work_read_queue: r"self\.close\(\)|only garbage"} if name == "stop-vs-garbage" else
                           {N.stop: r"_stopping|_stop_lock|send_dpr|for conn", N._check_timers: None, N.send_dwr: None})
